@@ -46,7 +46,7 @@ var relOtherTests = map[string][]string{
 	"lib/query.ConvertFieldContents": {"U|TF"},         // rendering of a ternary cell
 	"lib/query.serializeTernary":     {"F|TU"},         // rendering of a ternary key
 	"lib/query.ShowObjects":          {"F|TU", "U|TF"}, // rendering of flags
-	"lib/query.(SortValues).Less":    {"U|TF"},         // UNKNOWN = tie (decided by R-SRT-2)
+	"lib/query.(SortValues).Less":    {"U|TF", "F|TU"}, // UNKNOWN = tie; DESC: before iff Less is FALSE (both decided by R-SRT-2)
 }
 
 // functions that decide on rows / control flow: each must test for TRUE
@@ -117,31 +117,28 @@ func ruleRel1(c *Ctx) {
 	found := map[string][]string{}
 	pos := map[string]string{}
 	for _, fn := range c.P.FuncsIn(true, "lib/query") {
+		// a truth test is the comparison itself, whether it feeds a branch directly or is returned / stored as a
+		// boolean first (`return p.Ternary() == ternary.TRUE, nil` in a helper)
 		for _, b := range fn.Blocks {
-			if len(b.Instrs) == 0 {
-				continue
-			}
-			iff, ok := b.Instrs[len(b.Instrs)-1].(*ssa.If)
-			if !ok {
-				continue
-			}
-			bo, ok := iff.Cond.(*ssa.BinOp)
-			if !ok || (bo.Op != token.EQL && bo.Op != token.NEQ) {
-				continue
-			}
-			name, ok := ternaryConstName(c, bo.Y)
-			if !ok {
-				name, ok = ternaryConstName(c, bo.X)
-			}
-			if !ok {
-				continue
-			}
-			c.Touch(fn)
-			class := map[string]string{"TRUE": "T|FU", "FALSE": "F|TU", "UNKNOWN": "U|TF"}[name]
-			fname := relOwner(c, fn)
-			found[fname] = append(found[fname], class)
-			if pos[fname] == "" {
-				pos[fname] = c.Pos(iff)
+			for _, in := range b.Instrs {
+				bo, ok := in.(*ssa.BinOp)
+				if !ok || (bo.Op != token.EQL && bo.Op != token.NEQ) {
+					continue
+				}
+				name, ok := ternaryConstName(c, bo.Y)
+				if !ok {
+					name, ok = ternaryConstName(c, bo.X)
+				}
+				if !ok {
+					continue
+				}
+				c.Touch(fn)
+				class := map[string]string{"TRUE": "T|FU", "FALSE": "F|TU", "UNKNOWN": "U|TF"}[name]
+				fname := relOwner(c, fn)
+				found[fname] = append(found[fname], class)
+				if pos[fname] == "" {
+					pos[fname] = c.Pos(bo)
+				}
 			}
 		}
 	}
